@@ -78,11 +78,20 @@ impl DualConnector {
         let generate_feature_map = |feat_ids_tmp: &[Vec<U31>]| {
             let mut conn_id_map = vec![0];
             let mut feats_map = HashMap::new();
-            feats_map.insert(vec![U31::default(); feat_template_size - SIMD_SIZE], 0);
+            // `to_simd_vec` fills the last vector up with id 0, the empty feature, and a pair of empty
+            // features can have a cost; the rows are filled up with the invalid id instead.
+            let mut bos_feat_ids = vec![U31::default(); feat_template_size - SIMD_SIZE];
+            while bos_feat_ids.len() % SIMD_SIZE != 0 {
+                bos_feat_ids.push(INVALID_FEATURE_ID);
+            }
+            feats_map.insert(bos_feat_ids, 0);
             for row in feat_ids_tmp {
                 let mut feat_ids = vec![];
                 for &idx in matrix_indices {
                     feat_ids.push(*row.get(idx).unwrap_or(&INVALID_FEATURE_ID));
+                }
+                while feat_ids.len() % SIMD_SIZE != 0 {
+                    feat_ids.push(INVALID_FEATURE_ID);
                 }
                 let new_conn_id = feats_map.len();
                 let conn_id = *feats_map.entry(feat_ids).or_insert(new_conn_id);
